@@ -494,6 +494,7 @@ func c08Items(c *core.Collector, x *Ctx) {
 		magics := []uint32{0xFFD8FFE0, 0xFFD8FFE1, 0xFFD8FFDB, 0x89504E47, 0x47494638, 0x52494646, 0x30316364, 0x7E7E7E7E, 0x7D017D02, 0x49443303, 0x00000000, 0xFFFFFFFF, 0x1A45DFA3, 0x66747970}
 		tails := [][]byte{{0xFF, 0xD9}, {0x49, 0x45, 0x4E, 0x44, 0xAE, 0x42, 0x60, 0x82}, {0x00, 0x3B}, {0xaa, 0xbb, 0xcc}, {}}
 		n801 := 0
+		nonBCD := false
 		for mi, mg := range magics {
 			for ti, tail := range tails {
 				r := core.NewRand(c.Seed, "c08magic", uint64(mi*16+ti))
@@ -503,7 +504,17 @@ func c08Items(c *core.Collector, x *Ctx) {
 						a, st = r.U32(), mg
 					}
 					blk := c08Block(r, a, st)
-					c08Run(c, blk, nil, false, true, "magic-words", "0200", "0704")
+					if (mi+ti+pos)%2 == 1 {
+						// a time field that is not clean BCD (a terminal without a clock fix sends ff.., 00.., or garbage): how it is
+						// rendered is not claimed, every OTHER field still is
+						blk[22+r.Intn(6)] = []byte{0xff, 0xfa, 0xaf, 0x0a}[r.Intn(4)]
+						nonBCD = true
+					} else {
+						nonBCD = false
+					}
+					if !nonBCD {
+						c08Run(c, blk, nil, false, true, "magic-words", "0200", "0704")
+					}
 					for typ := 0; typ < 3; typ++ {
 						for fmtc := 0; fmtc < 5; fmtc++ {
 							body := append([]byte{0, 0, 0, 9, byte(typ), byte(fmtc), 1, 2}, blk...)
@@ -516,6 +527,9 @@ func c08Items(c *core.Collector, x *Ctx) {
 							var bad string
 							if guard(c, w, func() { bad = c08Check("0801", body, blk, nil, false) }) {
 								continue
+							}
+							if nonBCD && strings.HasPrefix(bad, "field|base|DateTime") {
+								bad = ""
 							}
 							n801++
 							c.NonTrivial(core.HashBytes([]byte("0801m"), body))
